@@ -15,6 +15,15 @@ from props import c19
 # character, or after everything was written and synced but before the rename
 TORN_CLASSES = ["zero", "one", "third", "half", "last", "complete"]
 CFG = {"replayIsComplete": True, "atomicWrite": False, "loadIsPerEntry": True, "replayOrderPreserved": True, "loadReadsCommitted": True}     # probed per run (see probe)
+ROWS = {}                                                 # wave 7: counts per row of the coverage table (notes/C20-report.md)
+UNUSABLE_OK = [False]                                     # probed: a state file that parses but is not a session state is skipped at load
+SEMANTIC_DAMAGE = ["state-null", "state-empty", "state-list", "missing-logs", "logs-wrong-type", "empty-object", "garbage"]
+
+
+def row(name, n=1):
+    ROWS[name] = ROWS.get(name, 0) + n
+
+
 TMP_STATS = {}                                            # cut class -> what lay next to the state file at the restart
 STARTUPS = []                                             # (compress, listing pattern b/r, constructor outcome) per restart after damage
 DAMAGE_STATS = {"variants": 0, "listing_positions": {}, "adjacent_pairs": 0, "compressed": 0, "plain": 0}
@@ -97,8 +106,15 @@ class Run:
         """the state directory as load_state will meet it: file name order of os.listdir, b = unreadable, r = readable"""
         from BPTK_Py import FileAdapter
         names = [fn for fn in os.listdir(self.path) if fn.endswith(".json")]
-        ad = FileAdapter(False, self.path)
-        return names, "".join("r" if ad._load_instance(fn.split(".")[0]) is not None else "b" for fn in names)
+        def kind(fn):                                     # read by the harness itself, not through the adapter under test
+            try:
+                st = json.loads(json.loads(open(os.path.join(self.path, fn)).read())["data"]["state"])
+            except Exception:
+                return "b"
+            ok = isinstance(st, dict) and isinstance(st.get("settings_log"), dict) and isinstance(st.get("results_log"), dict) \
+                and "scenario_managers" in st
+            return "r" if ok else "j"
+        return names, "".join(kind(fn) for fn in names)
 
     def damage(self, mid, cls):
         """disk fault: the state file of the instance is cut to a prefix (class `cls`)"""
@@ -111,6 +127,26 @@ class Run:
         DAMAGE_STATS["listing_positions"][where] = DAMAGE_STATS["listing_positions"].get(where, 0) + 1
         self.damaged_positions = getattr(self, "damaged_positions", []) + [pos]
         content = open(fn).read()
+        if cls in SEMANTIC_DAMAGE:
+            # the file still parses, but what it holds is not a session state (a disk fault does not have to be a truncation)
+            env = json.loads(content)
+            inner = json.loads(env["data"]["state"])
+            if cls == "state-null":
+                env["data"]["state"] = "null"
+            elif cls == "state-empty":
+                env["data"]["state"] = "{}"
+            elif cls == "state-list":
+                env["data"]["state"] = "[1, 2]"
+            elif cls == "missing-logs":
+                inner.pop("settings_log", None); env["data"]["state"] = json.dumps(inner)
+            elif cls == "logs-wrong-type":
+                inner["settings_log"] = 5; inner["results_log"] = "x"; env["data"]["state"] = json.dumps(inner)
+            new = "{}" if cls == "empty-object" else "\x00\x01 not json" if cls == "garbage" else json.dumps(env)
+            row("damage: " + cls)
+            with open(fn, "w") as f:
+                f.write(new)
+            return
+        row("damage: truncated (" + cls + ")")
         with open(fn, "w") as f:
             f.write(content[:cut_length(content, cls)])
 
@@ -135,17 +171,22 @@ class Run:
     def start(self, mid, inst):
         iid = json.loads(c19.post(self.srv.client, "/start-instance").data)["instance_uuid"]
         self.ids[mid] = iid
-        self.srv.bptk(iid).begin_session(scenarios=inst["scs"], scenario_managers=inst["sms"], settings={}, agents=[], agent_states=[],
+        self.srv.bptk(iid).begin_session(scenarios=inst["scs"], scenario_managers=inst["sms"], settings=copy.deepcopy(inst.get("settings", {})), agents=[], agent_states=[],
                                          agent_properties=[], agent_property_types=[], individual_agent_properties=[],
                                          equations=inst["eqs"], starttime=self.spec["start"], dt=self.spec["dt"])
 
     def step(self, mid, st):
         """-> (kind, body)"""
         iid = self.ids.get(mid, "no-such-instance")
-        body = None if st["k"] == "nobody" else {"settings": st.get("settings", {})}
-        r = c19.post(self.srv.client, f"/{iid}/run-step", body)
+        if st["k"] == "multi":                            # run-steps: several steps, ONE write at the end
+            r = c19.post(self.srv.client, f"/{iid}/run-steps", {"settings": st.get("settings", {}), "numberSteps": st["n"]})
+        else:
+            body = None if st["k"] == "nobody" else {"settings": st.get("settings", {})}
+            r = c19.post(self.srv.client, f"/{iid}/run-step", body)
         if r.status_code == 200:
             data = json.loads(r.data)
+            if st["k"] == "multi":
+                return ("ok", data)
             return ("stopped", data) if "msg" in data else ("ok", data)
         txt = r.data.decode(errors="replace")
         if "expecting a valid instance id" in txt:
@@ -307,13 +348,19 @@ class ProcRun(Run):
         _, txt = self.http("/start-instance")
         iid = json.loads(txt)["instance_uuid"]
         self.ids[mid] = iid
-        self.http(f"/{iid}/begin-session", {"scenario_managers": inst["sms"], "scenarios": inst["scs"], "equations": inst["eqs"], "settings": {}})
+        self.http(f"/{iid}/begin-session", {"scenario_managers": inst["sms"], "scenarios": inst["scs"], "equations": inst["eqs"],
+                                            "settings": inst.get("settings", {})})
 
     def step(self, mid, st):
         iid = self.ids.get(mid, "no-such-instance")
-        code, txt = self.http(f"/{iid}/run-step", "nobody" if st["k"] == "nobody" else {"settings": st.get("settings", {})})
+        if st["k"] == "multi":
+            code, txt = self.http(f"/{iid}/run-steps", {"settings": st.get("settings", {}), "numberSteps": st["n"]})
+        else:
+            code, txt = self.http(f"/{iid}/run-step", "nobody" if st["k"] == "nobody" else {"settings": st.get("settings", {})})
         if code == 200:
             data = json.loads(txt)
+            if st["k"] == "multi":
+                return ("ok", data)
             return ("stopped", data) if "msg" in data else ("ok", data)
         if "expecting a valid instance id" in txt:
             return ("invalid", None)
@@ -381,6 +428,12 @@ def model_lines(hist, ops):
     for op in ops:
         if op[0] == "start":
             req.append(f"start {op[1]} {c19.T(spec['start'])} {c19.T(spec['dt'])} {c19.T(spec['stop'])} {op[1]}")
+        elif op[0] == "step" and op[2]["k"] == "multi":
+            for j in range(op[2]["n"]):                   # n steps of the model; the files are compared after the last one
+                req.append(f"step {op[1]} {settings_token(op[2])}")
+                if j + 1 < op[2]["n"]:
+                    for mid in range(len(hist["instances"])):
+                        req.append(f"file {mid}")
         elif op[0] == "step":
             req.append(f"step {op[1]} {settings_token(op[2])}")
         elif op[0] == "crash":
@@ -447,8 +500,9 @@ def variants(hist):
         if k0 is not None:
             sets = [(m,) for m in range(n)] + list(itertools.combinations(range(n), 2))
             for j, ms in enumerate(sets):
+                pool = ["inner", "zero", "last"] + (SEMANTIC_DAMAGE if UNUSABLE_OK[0] else [])
                 for k in sorted({k0, len(ops)}):
-                    cls = ("inner", "zero", "last")[(j + k) % 3]
+                    cls = pool[(2 * j + k + (3 if hist["compress"] else 0)) % len(pool)]
                     out.append((f"damage@{k}:{'+'.join(map(str, ms))}:{cls}",
                                 ops[:k] + [("damage", m, cls) for m in ms] + [("crash",)] + ops[k:]))
     if hist.get("torn", True):
@@ -486,10 +540,15 @@ def check_variant(hist, name, ops, un_by_step, base, model_out, runner=None):
     counters, lost, externalised = {}, set(), set()
     exp_lines, real_lines = [], []
     mi = 2                                            # index into model_out (after "new", "cfg")
+    torn_mids = set()
     for oi, op in enumerate(ops):
         kind, body = got[oi]
-        m_reply = model_out[mi]; mi += 1
-        m_files = model_out[mi:mi + len(hist["instances"])]; mi += len(hist["instances"])
+        ngroups = op[2]["n"] if op[0] == "step" and op[2]["k"] == "multi" else 1
+        m_replies = []
+        for _ in range(ngroups):
+            m_replies.append(model_out[mi]); mi += 1
+            m_files = model_out[mi:mi + len(hist["instances"])]; mi += len(hist["instances"])
+        m_reply = m_replies[0]
         if kind == "ctor-failed":
             viol.append(("constructor-fails-on-damaged-file", f"{name}: BptkServer.__init__ raised {body}"))
             break
@@ -501,21 +560,30 @@ def check_variant(hist, name, ops, un_by_step, base, model_out, runner=None):
             real_lines.append((kind, u_kind, same))
             c_tok, u_tok = m_reply.split(";")
             c_tok, u_tok = c_tok[2:], u_tok[2:]
-            exp_lines.append((c_tok.split(":")[0], u_tok.split(":")[0], c_tok == u_tok))
+            if ngroups > 1:                               # run-steps answers 200 with a list: kinds ok/stopped of the single steps do not show
+                alleq = all(r_.split(";")[0][2:] == r_.split(";")[1][2:] for r_ in m_replies)
+                mk = lambda t: "ok" if t.split(":")[0] in ("ok", "stopped") else t.split(":")[0]
+                exp_lines.append((mk(c_tok), mk(u_tok), alleq))
+            else:
+                exp_lines.append((c_tok.split(":")[0], u_tok.split(":")[0], c_tok == u_tok))
             if kind.startswith("http-"):
                 viol.append((f"run-step-{kind}-after-restart", f"{name}: op {oi} {body}"))
             elif kind == "invalid" and mid not in lost:
                 viol.append(("externalised-instance-lost", f"{name}: op {oi}: instance {mid} had been externalised and its file was not damaged, "
-                                                          f"but the request is refused"))
+                                                          f"but the request is refused" +
+                                                          (" (a write of this instance died earlier: the committed state file of the last completed "
+                                                           "write is intact, a temporary file may lie next to it)" if mid in torn_mids else "")))
             elif kind in ("ok", "stopped") and not same:
                 viol.append(("continuation-differs", f"{name}: op {oi}: instance {mid} step {n} answers {body}, uninterrupted run answers {u_body}"))
-            if kind == "ok" and present(body) != requested(hist, mid):
-                viol.append(("equation-missing", f"{name}: op {oi}: result lacks {sorted(requested(hist, mid) - present(body))}"))
+            for one in (body if isinstance(body, list) else [body]) if kind == "ok" else []:
+                if "msg" not in one and present(one) != requested(hist, mid):
+                    viol.append(("equation-missing", f"{name}: op {oi}: result lacks {sorted(requested(hist, mid) - present(one))}"))
             if kind in ("ok", "stopped"):
                 externalised.add(mid)
         elif op[0] == "evict":
             pass
         elif op[0] == "torn":                             # (the atomic write is the behaviour of the tree; `atomicWrite` is still probed)
+            torn_mids.add(op[1])
             # the previous state file is intact: the request is lost as a whole (and retried), no instance is
             lost |= {m for m in range(len(hist["instances"])) if m not in externalised and any(o[0] == "start" and o[1] == m for o in ops[:oi])}
         elif op[0] == "damage":
@@ -585,14 +653,18 @@ def gen_history(rng, nmax):
         budget -= n
         steps = []
         for _ in range(n):
-            r = rng.below(10)
+            r = rng.below(12)
             if r < 5:
                 steps.append({"k": "set", "settings": c19.settings_for(rng, sms, scs, rng.chance(1, 3))})
             elif r < 8:
                 steps.append({"k": "empty"})
-            else:
+            elif r < 10:
                 steps.append({"k": "nobody"})
+            else:                                          # run-steps: several steps, one write
+                steps.append({"k": "multi", "n": rng.range(2, 3), "settings": c19.settings_for(rng, sms, scs, False) if rng.chance(1, 2) else {}})
         insts.append({"sms": sms, "scs": scs, "eqs": eqs, "steps": steps})
+        if rng.chance(1, 3):                               # settings given with begin-session: in force from the first step on, also after a restart
+            insts[-1]["settings"] = {sms[0]: {([x for x in c19.MANAGERS[sms[0]] if x in scs] or c19.MANAGERS[sms[0]][:1])[0]: {"constants": {"c": rng.choice([3.0, 0.0, -2.5])}}}}
     hist = {"spec": spec, "compress": rng.chance(1, 2), "instances": insts}
     if ninst > 1 and rng.chance(2, 3):                   # any interleaving of the instances' requests, late starts
         hist["order"] = gen_order(rng, hist)
@@ -674,6 +746,18 @@ def boundary_histories(quick):
     return out
 
 
+def request_kind_histories(quick):
+    """run-steps as the stepping request (several steps, one write; a crash inside that write loses the whole request) and session
+    settings given at begin-session, crash points and write cuts as for every history"""
+    out = []
+    for compress in ((False, True) if not quick else (True,)):
+        out.append({"spec": {"start": 1.0, "dt": 0.5, "stop": 10.0}, "compress": compress,
+                    "instances": [{"sms": ["smA"], "scs": ["a"], "eqs": ["s", "c", "g"], "settings": {"smA": {"a": {"constants": {"c": 3.0}}}},
+                                   "steps": [{"k": "multi", "n": 2, "settings": {}}, copy.deepcopy(K3), {"k": "multi", "n": 3, "settings": copy.deepcopy(C5["settings"])},
+                                             {"k": "empty"}]}]})
+    return out
+
+
 def tmp_histories(quick):
     """the write of EVERY step dies at EVERY cut of the temporary file, start-up load and lazy load, both adapter modes"""
     out = []
@@ -739,9 +823,35 @@ def probe(base):
     facts["loadIsPerEntry"] = probe_load(base)
     facts["replayOrderPreserved"] = probe_order(base)
     facts["loadReadsCommitted"] = probe_tmp(base)
+    facts["loadSkipsUnusableStates"] = probe_unusable(base)
+    UNUSABLE_OK[0] = facts["loadSkipsUnusableStates"]
     for k in CFG:
         CFG[k] = facts[k]
     return facts
+
+
+def probe_unusable(base):
+    """a state file that still parses but does not hold a session state (inner state null / without its logs): the server starts,
+    the other instance continues, both modes"""
+    import contextlib, io
+    ok = True
+    for compress, cls in ((False, "state-null"), (True, "missing-logs"), (False, "logs-wrong-type")):
+        with contextlib.redirect_stdout(io.StringIO()):
+            run = Run(WITNESS["spec"], compress, os.path.join(base, "state-unusable"))
+            try:
+                run.start(0, WITNESS["instances"][0]); run.start(1, WITNESS["instances"][1])
+                run.step(0, {"k": "empty"}); run.step(1, {"k": "empty"})
+                n0 = dict(ROWS)
+                run.damage(0, cls)
+                ROWS.clear(); ROWS.update(n0)
+                run.damaged_positions = []
+                run.crash()
+                ok = ok and run.srv is not None and run.step(1, {"k": "empty"})[0] == "ok" and run.step(0, {"k": "empty"})[0] == "invalid"
+            except Exception:
+                ok = False
+            finally:
+                run.close()
+    return ok
 
 
 def probe_tmp(base):
@@ -857,8 +967,10 @@ def gen_lean(facts):
            f"dropped, every other one decompressed): {facts['loadIsPerEntry']} -/\n"
            f"def cfg : Cfg := {{ replayIsComplete := {b(facts['replayIsComplete'])}, atomicWrite := {b(facts['atomicWrite'])}, "
            f"loadIsPerEntry := {b(facts['loadIsPerEntry'])}, replayOrderPreserved := {b(facts['replayOrderPreserved'])}, "
-           f"loadReadsCommitted := {b(facts['loadReadsCommitted'])} }}\n"
+           f"loadReadsCommitted := {b(facts['loadReadsCommitted'])}, loadSkipsUnusable := {b(facts.get('loadSkipsUnusableStates'))} }}\n"
            f"-- a load reads the committed state file, never a temporary file lying next to it (torn or complete): {facts['loadReadsCommitted']}\n"
+           f"-- a state file that parses but does not hold a session state is skipped like an unreadable one (File.torn of the model covers both): "
+           f"{facts.get('loadSkipsUnusableStates')}\n"
            f"-- the adapter round trip keeps the order of the logged steps (labels 9.0,10.0 / -2.0,-1.0 / 99.5,100.0 / 0.0..11.0): {facts['replayOrderPreserved']}\n"
            "theorem holds_wave1 {σ ρ : Type} (d : Dyn σ ρ) : C20_full d := C20_full_holds d\n#print axioms holds_wave1\n")
     rest_good = facts["replayIsComplete"] and facts["loadIsPerEntry"] and facts["replayOrderPreserved"]
@@ -878,6 +990,14 @@ def gen_lean(facts):
                     "noLoss_of_atomic cfg (by decide) (by decide) d\n#print axioms no_instance_lost_in_write\n")
     else:
         out += "theorem violated : ¬ C20_full_cfg cfg lazyDyn := C20_witness_partial_replay cfg (by decide)\n#print axioms violated\n"
+    if facts["loadIsPerEntry"]:
+        if facts.get("loadSkipsUnusableStates"):
+            out += ("theorem no_startup_failure_on_junk : NoStartupFailureOnJunk cfg := noStartupFailure_of_skip cfg (by decide) (by decide)\n"
+                    "#print axioms no_startup_failure_on_junk\n")
+        else:
+            out += ("/-- a state file that parses but holds no session state keeps the server from starting on this tree (repair proposed) -/\n"
+                    "theorem junk_state_file_stops_startup : ¬ NoStartupFailureOnJunk cfg := noStartupFailure_witness cfg (by decide) (by decide)\n"
+                    "#print axioms junk_state_file_stops_startup\n")
     if not facts["atomicWrite"]:
         out += ("/-- the write is in place: a crash inside it costs the instance being written (allowed by the statement) -/\n"
                 "theorem write_can_lose_the_instance : ¬ NoLossInWrite cfg histDyn := noLoss_witness cfg (by decide)\n"
@@ -913,7 +1033,7 @@ def _run(chk, base):
                        "points; fsync/rename ordering of the file system is trusted", "SD sessions; start/dt on the dyadic or the decimal lattice (see C19)"]
     nmax = 6 if chk.quick else 12
     rng = chk.rng.fork("c20-hist")
-    hists = [WITNESS, WITNESS_LATE] + tmp_histories(chk.quick) + boundary_histories(chk.quick) + damage_histories(chk.quick) + late_settings_histories(chk.quick) + [gen_history(rng, nmax) for _ in range(5 if chk.quick else 40)]
+    hists = [WITNESS, WITNESS_LATE] + request_kind_histories(chk.quick) + tmp_histories(chk.quick) + boundary_histories(chk.quick) + damage_histories(chk.quick) + late_settings_histories(chk.quick) + [gen_history(rng, nmax) for _ in range(5 if chk.quick else 40)]
     chk.cov["rule"] = (f"per generated history (1-3 instances, <= {nmax} steps, settings / {{}} / no body, both adapter modes): one uninterrupted run, then one "
                        "run per crash point k in 0..N (exhaustive) and one per stepping request x torn-write class {0, inside envelope, inside inner state "
                        "string, length-1} (with an atomic state write the request that died is retried), two runs with crashes at several positions; "
@@ -924,6 +1044,7 @@ def _run(chk, base):
     total = 0
     del STARTUPS[:]
     TMP_STATS.clear()
+    ROWS.clear()
     DAMAGE_STATS.update({"variants": 0, "listing_positions": {}, "adjacent_pairs": 0, "compressed": 0, "plain": 0})
     dist = {"histories": 0, "crash_variants": 0, "torn_variants": 0, "multi_crash_variants": 0, "instances": {1: 0, 2: 0, 3: 0, 4: 0}, "compressed": 0,
             "random_interleavings": 0, "quiet_steps_then_settings": 0, "non_dyadic": 0, "label_text_order_differs": 0}
@@ -932,6 +1053,14 @@ def _run(chk, base):
         total += n
         ops, vs = variants(h)
         dist["histories"] += 1
+        for i_ in h["instances"]:
+            for s_ in i_["steps"]:
+                row("stepping request: " + {"set": "run-step with settings", "empty": "run-step with {}", "nobody": "run-step without body",
+                                            "multi": "run-steps (several steps, one write)"}[s_["k"]], 1)
+            row("session settings given at begin-session" if i_.get("settings") else "session without session settings")
+        for nm, _ in vs:
+            kind = nm.split("@")[0] + (":lazy load" if nm.endswith(":lazy") else "") + (" (several)" if "+" in nm and nm.startswith("crash") else "")
+            row("variant: " + kind)
         dist["crash_variants"] += sum(1 for v in vs if v[0].startswith("crash") and "+" not in v[0])
         dist["multi_crash_variants"] += sum(1 for v in vs if "+" in v[0] and v[0].startswith("crash"))
         nd = sum(1 for v in vs if v[0].startswith("damage"))
@@ -978,13 +1107,14 @@ def _run(chk, base):
     # start-up over the directory listings met after damage: model (`startup`, `loadEntries`) vs constructor outcome
     if STARTUPS:
         lines = [f"startup {int(c)} {int(CFG['loadIsPerEntry'])} " + " ".join(p) for c, p, _ in STARTUPS]
-        got = drive("C20", lines)
+        got = drive("C20", [f"cfgj {int(UNUSABLE_OK[0])}"] + lines)[1:]
         bad = [(l, g, e[2]) for l, g, e in zip(lines, got, STARTUPS) if g != e[2]]
         chk.cov["startup_listings"] = {"compared": len(lines), "distinct": len(set(lines)), "damage": dict(DAMAGE_STATS)}
         if bad and not viol_by_key:
             chk.add_finding("correspondence", f"start-up over listing {bad[0][0]!r}: model {bad[0][1]!r}, constructor {bad[0][2]!r}",
                             {"correspondence": "Drive/C20 startup vs BptkServer.__init__", "first": list(bad[0])}, found_input=False)
     chk.cov["temporary_file_at_restart"] = dict(sorted(TMP_STATS.items()))
+    chk.cov["coverage_rows"] = dict(sorted(ROWS.items()))
     chk.cov["input_distribution"] = dist
     chk.cov["traces_validated_against_impl"] = total
     chk.cov["exhaustive"] = "crash point and torn-write class exhaustive per history"
